@@ -29,7 +29,7 @@ class Mode(LogMixin):
     __slots__ = ["machine", "config", "name", "path", "priority", "_active", "_starting", "_mode_start_wait_queue",
                  "stop_methods", "start_callback", "stop_callbacks", "event_handlers", "switch_handlers",
                  "mode_stop_kwargs", "mode_devices", "start_event_kwargs", "stopping", "delay", "player",
-                 "_start_completing", "_stop_after_start",
+                 "_start_completing", "_stop_after_start", "_stop_completing", "_start_after_stop",
                  "auto_stop_on_ball_end", "restart_on_next_ball", "asset_paths"]
 
     # pylint: disable-msg=too-many-arguments
@@ -65,6 +65,8 @@ class Mode(LogMixin):
         self.stopping = False
         self._start_completing = False          # mode_<name>_started is posted but mode_start() did not run yet
         self._stop_after_start = None           # type: Optional[Dict[str, Any]]
+        self._stop_completing = False           # mode_<name>_stopped is posted but the clean-up did not run yet
+        self._start_after_stop = None           # type: Optional[Tuple[Any, Any, Dict[str, Any]]]
 
         self.delay = DelayManager(self.machine)
         '''DelayManager instance for delays in this mode. Note that all delays
@@ -166,6 +168,13 @@ class Mode(LogMixin):
 
         if self._starting:
             self.debug_log("Mode already starting. Aborting start.")
+            return
+
+        if self._stop_completing:
+            # the handlers and devices of the previous run are only removed after mode_<name>_stopped. start as
+            # soon as that happened. otherwise, the clean-up would remove what this start registers
+            if self._start_after_stop is None:
+                self._start_after_stop = (mode_priority, callback, kwargs)
             return
 
         self._starting = True
@@ -357,6 +366,7 @@ class Mode(LogMixin):
         self.priority = 0
         self.active = False
         self.stopping = False
+        self._stop_completing = True
 
         for item in self.stop_methods:
             item[0](item[1])
@@ -409,6 +419,13 @@ class Mode(LogMixin):
             callback()
 
         self.stop_callbacks = []
+
+        self._stop_completing = False
+        if self._start_after_stop is not None:
+            # a start was requested while the stop was still completing
+            mode_priority, callback, start_kwargs = self._start_after_stop
+            self._start_after_stop = None
+            self.start(mode_priority=mode_priority, callback=callback, **start_kwargs)
 
     def _add_mode_devices(self) -> None:
         """Add and initialize mode devices which get removed at the end of the mode."""
